@@ -38,6 +38,12 @@ func (v *VMValue) ToJSONRaw(save map[*VMValue]bool) ([]byte, error) {
 			if save == nil {
 				save = map[*VMValue]bool{}
 			}
+			// 计算值的属性表也可以构成环(属性里存放着它自己)，与数组/字典同样只记录当前路径
+			if _, exists := save[v]; exists {
+				return nil, errors.New("值错误: 序列化时检测到循环引用")
+			}
+			save[v] = true
+			defer delete(save, v)
 			attrJson, err := cd.Attrs.toJSONWith(save)
 			if err != nil {
 				return nil, err
